@@ -898,6 +898,19 @@ pub fn run_pair_only(
             ) { break }
             target = runner.next_op();
         }
+        // One pair in six: the publication server's operator removes the
+        // publisher of a CA that has published objects (two entities -
+        // the access records and the content log - change in one
+        // request).
+        if !p.fs_only && runner.rng.chance(1, 6) {
+            let names: Vec<String> = runner.model.cas.values()
+                .filter(|c| c.name != "testbed" && c.inst == 0)
+                .map(|c| c.name.clone()).collect();
+            if !names.is_empty() {
+                let ca = names[runner.rng.usize(names.len())].clone();
+                target = Op::RemovePublisher { inst: 0, ca };
+            }
+        }
         let (key_cursor, oneoff_cursor) = {
             let st = hooks::state();
             (st.key_cursor, st.oneoff_cursor)
